@@ -36,9 +36,9 @@ Qed.
 (* generic case-analysis helper: after `destruct H` on a tstep, normalise *)
 Ltac norm_step :=
   unfold group_err, spent, fresh_conn in *; cbn [rx tx conn_set cpc cancelled gerr xpc rpc spc ppc linger connected
-    sock_closed peer_closed inbuf outbuf close_st budget peer_eof tracked
+    sock_closed peer_closed wbroken inbuf outbuf close_st budget peer_eof tracked
     set_rx set_tx set_conn_set set_cpc set_cancelled set_gerr set_xpc set_rpc set_spc set_ppc set_linger
-    set_connected set_sock_closed set_peer_closed set_inbuf set_outbuf set_close_st set_budget set_peer_eof
+    set_connected set_sock_closed set_peer_closed set_wbroken set_inbuf set_outbuf set_close_st set_budget set_peer_eof
     set_tracked] in *.
 
 Ltac split_ifs :=
